@@ -15,7 +15,9 @@
 //
 // Correspondence with the Lean model (ops.txt / impl.txt): type bounds,
 // per-node expression bounds (MBounds) under the facts in force, statement
-// layer verdicts — see sexpr.go.
+// layer verdicts — see sexpr.go; whole function bodies with control flow
+// (verdict, number of program points, the fact list at every probed point;
+// the model of Props.C01.check_sound_flow) — see flowtie.go.
 package main
 
 import (
@@ -719,5 +721,5 @@ func main() {
 	r.Extra("programs", len(jobs))
 	r.Extra("corpus_programs", nCorpus)
 	r.Extra("histories_per_program", nHist)
-	r.Finish("programs: corpus of known-unsound patterns, then checker-guided random packages (struct with refined scalar fields + arrays, 1-4 methods, assignments/op-assignments, if, while with inv/post, asserts with via reasons, calls), then near-miss mutants; each accepted program is run on call histories with argument extremes by the monitored reference interpreter (facts of the real checker evaluated at every reached statement boundary) and as generated C under ASan+UBSan. distinct_nontrivial = distinct accepted sources with >= 1 completed history and >= 1 evaluated fact")
+	r.Finish("programs: corpus of known-unsound patterns, then checker-guided random packages (struct with refined scalar fields + arrays, 1-4 methods, assignments/op-assignments, if, while with inv/post, asserts with via reasons, calls), then near-miss mutants; each accepted program is run on call histories with argument extremes by the monitored reference interpreter (facts of the real checker evaluated at every reached statement boundary) and as generated C under ASan+UBSan. correspondence: besides the expression / statement ops, every function body inside the Lean Flow fragment is compared as a whole with the model of check_sound_flow (case func: verdict + number of points; pt: fact list at every probed point; rejected candidates must be rejected). distinct_nontrivial = distinct accepted sources with >= 1 completed history and >= 1 evaluated fact")
 }
